@@ -25,7 +25,7 @@ DRIVER = 'Driver/C09.lean'
 REQUIRED_THEOREMS = ['CfVerif.C09.matcher_conditions', 'CfVerif.C09.matcher_groups', 'CfVerif.C09.matcher_partition', 'CfVerif.C09.group_contents',
                      'CfVerif.C09.linking_outcome', 'CfVerif.C09.linking_iff', 'CfVerif.C09.unlinked_rejected', 'CfVerif.C09.estimate_outcome', 'CfVerif.C09.estimate_exact_on_consistent_data', 'CfVerif.C09.average_sign_invariant',
                      'CfVerif.C09.layout_length', 'CfVerif.C09.bsmap_sorted', 'CfVerif.C09.sparsity_columns', 'CfVerif.C09.sparsity_rows',
-                     'CfVerif.C09.residual_row_reads', 'CfVerif.C09.sparsity_covers_dependencies', 'CfVerif.C09.condense_layout', 'CfVerif.C09.initial_guess_layout',
+                     'CfVerif.C09.residual_row_reads', 'CfVerif.C09.sparsity_covers_dependencies', 'CfVerif.C09.condense_layout', 'CfVerif.C09.initial_guess_layout', 'CfVerif.C09.solve_repeatable',
                      'CfVerif.C09.negated_rotvec_is_transpose', 'CfVerif.C09.zero_residual_at_truth',
                      'CfVerif.C09.ippe_rotations_proper', 'CfVerif.C09.ippe_axes', 'CfVerif.C09.ippe_vec_roundtrip', 'CfVerif.C09.ippe_mat_roundtrip']
 TRUSTED = ['harness/corr/c09.py extractor + correspondence (symbolic subclassing of the estimator, least_squares recorder)',
@@ -145,6 +145,84 @@ def _int_matrix(node, what):
 
 def _lints(l):
     return '[' + ', '.join(str(x) if x >= 0 else '(%d)' % x for x in l) + ']'
+
+
+MUTATORS = {'pop', 'append', 'clear', 'remove', 'sort', 'reverse', 'update', 'insert', 'extend', 'popitem', 'setdefault', 'discard', 'add',
+            'scale', 'fill', 'resize', 'put', 'itemset', 'sort_values'}
+
+
+def _root(e):
+    """root Name of an attribute/subscript chain without calls or slices (a chain that ALIASES the root object), else None"""
+    while True:
+        if isinstance(e, ast.Name):
+            return e.id
+        if isinstance(e, ast.Attribute):
+            e = e.value
+        elif isinstance(e, ast.Subscript) and not isinstance(e.slice, ast.Slice):
+            e = e.value
+        else:
+            return None
+
+
+def _iter_root(e):
+    """root of an iterable whose ELEMENTS alias caller objects: x, x.attr, x.items()/.values()/.keys(), enumerate(...), sorted(...), x[a:b]"""
+    if isinstance(e, ast.Call):
+        f = ast.unparse(e.func)
+        if f in ('enumerate', 'sorted', 'reversed', 'list', 'zip') and e.args:
+            return _iter_root(e.args[0])
+        if isinstance(e.func, ast.Attribute) and e.func.attr in ('items', 'values', 'keys'):
+            return _iter_root(e.func.value)
+        return None
+    if isinstance(e, ast.Subscript) and isinstance(e.slice, ast.Slice):
+        return _iter_root(e.value)
+    return _root(e)
+
+
+def caller_arg_mutations(fn, params):
+    """statements of fn that mutate an object reachable from the caller's arguments `params` (directly, through an alias
+    `x = arg.attr`, or through a loop variable ranging over their elements).  Conservative syntactic taint analysis."""
+    tainted = set(params)
+    changed = True
+    while changed:
+        changed = False
+        for n in ast.walk(fn):
+            new = []
+            if isinstance(n, ast.Assign) and len(n.targets) == 1 and isinstance(n.targets[0], ast.Name) and _root(n.value) in tainted:
+                new = [n.targets[0].id]
+            elif isinstance(n, (ast.For, ast.comprehension)) and _iter_root(n.iter) in tainted:
+                new = [m.id for m in ast.walk(n.target) if isinstance(m, ast.Name)]
+            for x in new:
+                if x not in tainted:
+                    tainted.add(x)
+                    changed = True
+    hits = []
+    for n in ast.walk(fn):
+        if isinstance(n, ast.Call) and isinstance(n.func, ast.Attribute) and n.func.attr in MUTATORS and _root(n.func.value) in tainted:
+            hits.append((n.lineno, ast.unparse(n)))
+        elif isinstance(n, (ast.Assign, ast.AugAssign, ast.AnnAssign)):
+            for t in (n.targets if isinstance(n, ast.Assign) else [n.target]):
+                for tt in (t.elts if isinstance(t, (ast.Tuple, ast.List)) else [t]):
+                    if isinstance(tt, (ast.Attribute, ast.Subscript)) and _root(tt.value if isinstance(tt, ast.Subscript) else tt.value) in tainted:
+                        hits.append((n.lineno, _first_line(n)))
+        elif isinstance(n, ast.Delete):
+            for t in n.targets:
+                if isinstance(t, (ast.Attribute, ast.Subscript)) and _root(t.value) in tainted:
+                    hits.append((n.lineno, ast.unparse(n)))
+    return ['%s: %s' % (fn.name, h) for _, h in sorted(set(hits))]
+
+
+# (function, the parameters that hold objects owned by the caller of the public entry points match / estimate / solve)
+CALLER_ARGS = [(MATCHER, 'LighthouseSampleMatcher.match', ['samples']),
+               (ESTIMATOR, 'LighthouseInitialEstimator.estimate', ['matched_samples', 'sensor_positions']),
+               (ESTIMATOR, 'LighthouseInitialEstimator._find_solutions', ['matched_samples', 'sensor_positions']),
+               (ESTIMATOR, 'LighthouseInitialEstimator._angles_to_poses', ['matched_samples', 'sensor_positions']),
+               (SOLVER, 'LighthouseGeometrySolver.solve', ['initial_guess', 'matched_samples', 'sensor_positions']),
+               (SOLVER, 'LighthouseGeometrySolver._populate_target_angles', ['matched_samples']),
+               (SOLVER, 'LighthouseGeometrySolver._populate_indexes_and_jacobian', ['matched_samples']),
+               (SOLVER, 'LighthouseGeometrySolver._populate_initial_guess', ['initial_guess']),
+               (SOLVER, 'LighthouseGeometrySolver._create_bs_map', ['initial_guess_bs_poses']),
+               (SOLVER, 'LighthouseGeometrySolver._condense_results', ['matched_samples']),
+               (SOLVER, 'LighthouseGeometrySolver._calc_residual', ['params', 'target_angles', 'sensor_positions'])]
 
 
 def extract(ctx):
@@ -323,6 +401,16 @@ def extract(ctx):
     ltt = X.parse('cflib/localization/lighthouse_types.py')
     g.strings('poseRotateTranslateReturns', _returns(X.find(ltt, 'Pose.rotate_translate')))
     g.strings('poseInvRotateTranslateReturns', _returns(X.find(ltt, 'Pose.inv_rotate_translate')))
+
+    # ---- purity of the entry points: statements that mutate objects owned by the caller (must be none) --------------
+    muts = []
+    for rel, qual, params in CALLER_ARGS:
+        fn = X.find(X.parse(rel), qual)
+        have = [a.arg for a in fn.args.args]
+        X.expect(all(p in have for p in params), '%s: parameters %s not found (has %s)' % (qual, params, have))
+        muts += caller_arg_mutations(fn, params)
+    g.strings('callerArgMutations', muts)
+    g.strings('callerArgFunctions', [q for _, q, _ in CALLER_ARGS])
 
     # ---- IPPE <-> CF axis permutation ---------------------------------------------------------------------
     it = X.parse(IPPE)
@@ -569,7 +657,7 @@ def _ints(a):
     return ','.join(str(int(x)) for x in l) or '-'
 
 
-def real_solve_glue(bs_order, samples, n_sensors, n_cf_poses, xtest=None):
+def real_solve_glue(bs_order, samples, n_sensors, n_cf_poses, xtest=None, repeat=False):
     """Run the REAL LighthouseGeometrySolver.solve with scipy's least_squares replaced at the call boundary by a recorder.
     Returns the dict of replies for the ops indexes / x0 / gather / condense."""
     from unittest import mock
@@ -616,12 +704,27 @@ def real_solve_glue(bs_order, samples, n_sensors, n_cf_poses, xtest=None):
     matched = [lt.LhCfPoseSample(timestamp=float(i), angles_calibrated={b: StubAngles(n_sensors) for b in ks}) for i, ks in enumerate(samples)]
     sens = np.array([[float(s), 0.0, 0.0] for s in range(n_sensors)]).reshape((n_sensors, 3))
     out = {}
+
+    def args_fp():
+        return (['%d:%s' % (b, _ints(list(p.rot_vec) + list(p.translation))) for b, p in guess.bs_poses.items()],
+                [_ints(list(p.rot_vec) + list(p.translation)) for p in guess.cf_poses],
+                [(m.timestamp, list(m.angles_calibrated)) for m in matched], sens.tolist())
+    fp0 = args_fp()
+    if repeat:
+        # an earlier solve() on the very same objects (retry / re-solve): must neither change them nor the second run
+        try:
+            with mock.patch.object(gs.scipy.optimize, 'least_squares', fake_lsq), contextlib.redirect_stdout(io.StringIO()):
+                SymSolver.solve(guess, matched, sens)
+        except Exception:
+            pass
+        rec.clear()
     try:
         with mock.patch.object(gs.scipy.optimize, 'least_squares', fake_lsq), contextlib.redirect_stdout(io.StringIO()):
             sol = SymSolver.solve(guess, matched, sens)
     except Exception as e:
         out['error'] = 'err ' + exc_enum(e)
         sol = None
+    out['args_unchanged'] = args_fp() == fp0
     if 'indexes' in rec:
         ibs, icf, isens, jac = rec['indexes']
         rows = [sorted(int(c) for c in jac.rows[r]) for r in range(jac.shape[0])]
@@ -992,7 +1095,11 @@ def correspond(ctx):
         istr = ','.join(map(str, sorted(guess_ids))) or '-'
         nx = 6 * len(guess_ids) + 6 * (len(samples) - 1)
         xtest = [7 * (j + 1) for j in range(max(nx, 0))]
-        out = real_solve_glue(guess_ids, samples, ns, ncf, xtest=xtest)
+        repeat = k % 3 == 1
+        out = real_solve_glue(guess_ids, samples, ns, ncf, xtest=xtest, repeat=repeat)
+        ctx.count('solve:repeat' if repeat else 'solve:first')
+        if not out.get('args_unchanged', True):
+            ctx.disagree('solve-args', 'solve() on ids %s samples %s' % (guess_ids, samples), 'arguments unchanged (session model)', 'solve() mutated its arguments')
         pstr = ','.join(map(str, xtest)) or '-'
         err = out.get('error')
         desc = {'op': 'solve-glue', 'guess_ids': guess_ids, 'samples': samples, 'n_sensors': ns, 'n_cf_poses': ncf}
@@ -1280,6 +1387,7 @@ def run_pipeline(rng, room, true_votes=False):
             res['n_matched'] = len(matched)
             guess, cleaned = Est.estimate(matched, sensors)
             res['n_cleaned'] = len(cleaned)
+            guess_bs, guess_cf = dict(guess.bs_poses), list(guess.cf_poses)     # the estimate as returned (solve() must not change it)
             sol = gs.LighthouseGeometrySolver.solve(guess, cleaned, sensors)
     except lt.LhException as e:
         res.update(outcome='lh_exception', message=str(e))
@@ -1299,12 +1407,12 @@ def run_pipeline(rng, room, true_votes=False):
     for b, p in room['bs'].items():
         dt, dr = pose_err(np, rel_pose(np, ref, p), sol.bs_poses[int(b)])
         worst_p, worst_r = max(worst_p, dt), max(worst_r, dr)
-        dt, dr = pose_err(np, rel_pose(np, ref, p), guess.bs_poses[int(b)])
+        dt, dr = pose_err(np, rel_pose(np, ref, p), guess_bs[int(b)])
         gp, gr = max(gp, dt), max(gr, dr)
     for i, p in enumerate(room['cf']):
         dt, dr = pose_err(np, rel_pose(np, ref, p), sol.cf_poses[i])
         worst_p, worst_r = max(worst_p, dt), max(worst_r, dr)
-        dt, dr = pose_err(np, rel_pose(np, ref, p), guess.cf_poses[i])
+        dt, dr = pose_err(np, rel_pose(np, ref, p), guess_cf[i])
         gp, gr = max(gp, dt), max(gr, dr)
     res.update(err_pos=worst_p, err_rot=worst_r, guess_err_pos=gp, guess_err_rot=gr)
     return res
@@ -1428,6 +1536,70 @@ def _deck_axis_perpendicular(room, i, b):
 
 def _within(r):
     return r['outcome'] == 'ok' and not r.get('shape_mismatch') and r['err_pos'] <= TOL_POS and r['err_rot'] <= TOL_ROT
+
+
+def _fp_angles(a):
+    return [(v.lh_v1_horiz_angle, v.lh_v1_vert_angle) for v in a]
+
+
+def _fp_samples(samples):
+    return [(s.timestamp, [(b, _fp_angles(a)) for b, a in s.angles_calibrated.items()]) for s in samples]
+
+
+def _fp_poses(bs, cfs):
+    return ([(b, p.rot_matrix.tolist(), p.translation.tolist()) for b, p in bs.items()], [(p.rot_matrix.tolist(), p.translation.tolist()) for p in cfs])
+
+
+def _same_solution(np, a, b, tol=1e-9):
+    if list(a.bs_poses) != list(b.bs_poses) or len(a.cf_poses) != len(b.cf_poses):
+        return False
+    pa = [a.bs_poses[k] for k in a.bs_poses] + list(a.cf_poses)
+    pb = [b.bs_poses[k] for k in b.bs_poses] + list(b.cf_poses)
+    return all(np.allclose(x.rot_matrix, y.rot_matrix, rtol=0, atol=tol) and np.allclose(x.translation, y.translation, rtol=0, atol=tol)
+               for x, y in zip(pa, pb))
+
+
+def purity_violations(rng, room, n_solves=3):
+    """every public entry point, called repeatedly on the SAME argument objects (retry / re-solve), must leave them unchanged
+    and return the same answer.  -> list of (key, what)"""
+    np, sm, ie, gs, lt, ippe_cf, bv = _mods()
+    sensors = lt.LhDeck4SensorPositions.positions
+    bad = []
+    with contextlib.redirect_stdout(io.StringIO()), np.errstate(all='ignore'):
+        meas = room_measurements(rng, room)
+        fp = [(m.timestamp, m.base_station_id, _fp_angles(m.angles)) for m in meas]
+        m1 = sm.LighthouseSampleMatcher.match(meas, min_nr_of_bs_in_match=2)
+        m2 = sm.LighthouseSampleMatcher.match(meas, min_nr_of_bs_in_match=2)
+        if [(m.timestamp, m.base_station_id, _fp_angles(m.angles)) for m in meas] != fp:
+            bad.append(('entry-point-mutates-arguments', 'match() changed the measurement list it was given'))
+        if _fp_samples(m1) != _fp_samples(m2):
+            bad.append(('entry-point-not-repeatable', 'match() called twice on the same list returned different samples'))
+        fpm, sens0 = _fp_samples(m1), sensors.copy()
+        try:
+            g1, c1 = ie.LighthouseInitialEstimator.estimate(m1, sensors)
+            g2, c2 = ie.LighthouseInitialEstimator.estimate(m1, sensors)
+        except Exception:
+            return bad                       # rejected / crashing rooms are judged by the end-to-end search
+        if _fp_samples(m1) != fpm or not (sensors == sens0).all():
+            bad.append(('entry-point-mutates-arguments', 'estimate() changed the matched samples / sensor positions it was given'))
+        if _fp_poses(g1.bs_poses, g1.cf_poses) != _fp_poses(g2.bs_poses, g2.cf_poses) or _fp_samples(c1) != _fp_samples(c2):
+            bad.append(('entry-point-not-repeatable', 'estimate() called twice on the same samples returned different estimates'))
+        fpg, fpc = _fp_poses(g1.bs_poses, g1.cf_poses), _fp_samples(c1)
+        sols = []
+        for k in range(n_solves):
+            try:
+                sols.append(gs.LighthouseGeometrySolver.solve(g1, c1, sensors))
+            except Exception as e:
+                bad.append(('entry-point-not-repeatable', 'solve() call #%d on the same initial guess raised %s: %s' % (k + 1, type(e).__name__, str(e)[:80])))
+                break
+            if _fp_poses(g1.bs_poses, g1.cf_poses) != fpg or _fp_samples(c1) != fpc or not (sensors == sens0).all():
+                bad.append(('entry-point-mutates-arguments', 'solve() call #%d changed the initial guess / samples / sensor positions it was given '
+                            '(%d -> %d CF poses in the guess)' % (k + 1, len(fpg[1]), len(g1.cf_poses))))
+                break
+            if k and not _same_solution(np, sols[0], sols[k]):
+                bad.append(('entry-point-not-repeatable', 'solve() call #%d on the same arguments returned different poses than call #1' % (k + 1)))
+                break
+    return bad
 
 
 def rejection_outcome(room, kind):
@@ -1649,6 +1821,16 @@ def search(ctx):
             slim = {kk: (round(v, 9) if isinstance(v, float) else v) for kk, v in r.items()}
             ctx.witness('stale-state-after-rejection', 'a room that is solved correctly on its own is answered wrongly after a rejected recording '
                         '(%s) with the same base-station ids was processed in the same process' % kind, {'room': room, 'rejected_first': kind}, result=slim)
+    # (7) every public entry point is repeatable on the same argument objects and leaves them unchanged (retry / re-solve)
+    for k in range(40 if thorough else 6):
+        room = gen_structured_room(rng) if k % 2 else gen_room(rng, ncf=rng.randint(3, 10))
+        try:
+            bad = purity_violations(rng, room, n_solves=len(room['cf']) + 1 if len(room['cf']) <= 4 else 3)
+        except Exception as e:
+            bad = [('entry-point-not-repeatable', 'harness: %s %s' % (type(e).__name__, str(e)[:120]))]
+        ctx.count('search:purity')
+        for key, what in bad[:2]:
+            ctx.witness(key, what, {'room': room})
     ctx.note('search(): end-to-end pipeline runs are TESTING/validation of the numerics outside the Lean model, not proof')
 
 
